@@ -61,6 +61,27 @@ func loadVariants(verif, prop string) ([]variant, error) {
 			}
 		}
 	}
+	// independently authored behaviour-preserving refactorings on which this property's check must stay silent
+	if ib, err := os.ReadFile(filepath.Join(verif, "benign", "index.json")); err == nil {
+		var idx map[string]struct {
+			SilentFor []string `json:"silent_for"`
+			What      string   `json:"what"`
+		}
+		if json.Unmarshal(ib, &idx) == nil {
+			var names []string
+			for n := range idx {
+				names = append(names, n)
+			}
+			sort.Strings(names)
+			for _, n := range names {
+				for _, p := range idx[n].SilentFor {
+					if p == prop {
+						vs = append(vs, variant{File: "benign/" + n + "/patch.diff", Patch: filepath.Join(verif, "benign", n, "patch.diff"), Benign: true, Note: "independent behaviour-preserving refactoring " + n})
+					}
+				}
+			}
+		}
+	}
 	return vs, nil
 }
 
